@@ -66,10 +66,14 @@ pub fn c02(seed: u64, runs: usize, nmax: usize, tw: &mut TraceWriter) -> Cov {
     let mut cov = Cov::default();
     for run in 0..runs {
         let mut r = SmallRng::seed_from_u64(master.random());
-        let n = r.random_range(2..=nmax);
+        // every fifth run: the regime in which a joiner depends on its Feed alone - 8 to 10 members joining one
+        // at a time, (n+2) periods apart, a packet that exactly feeds the whole cluster, one transmission per
+        // update and no periodic announce / gossip
+        let feed_regime = run % 5 == 4;
+        let n = if feed_regime { pick(&mut r, &[8usize, 9, 10]) } else { r.random_range(2..=nmax) };
         let mut cfg = base_cfg();
         cfg.fanout = r.random_range(1..=4);
-        cfg.maxtx = r.random_range(1..=10);
+        cfg.maxtx = if feed_regime { 1 } else { r.random_range(1..=10) };
         // probe_rtt < probe_period, sometimes only just
         match r.random_range(0..4) {
             0 => { cfg.period = 500; cfg.rtt = 400; }
@@ -77,24 +81,39 @@ pub fn c02(seed: u64, runs: usize, nmax: usize, tw: &mut TraceWriter) -> Cov {
             _ => {}
         }
         let p = cfg.period;
-        if r.random_range(0..2) == 0 {
+        if !feed_regime && r.random_range(0..2) == 0 {
             cfg.pg = Some((pick(&mut r, &[p / 3, p, 2 * p]), r.random_range(1..=3)));
         }
-        if r.random_range(0..2) == 0 {
+        if !feed_regime && r.random_range(0..2) == 0 {
             cfg.pa = Some((pick(&mut r, &[p / 2, p, 3 * p]), r.random_range(1..=2)));
         }
         // packet sizes: just large enough to feed the whole cluster ... 1400; sometimes too small
         // (then only the zero-false-suspicion clauses are required)
+        // (fixed codec: a Feed header takes 9 bytes, the count 2, a member 6; it lists everyone but sender and receiver)
+        let feed_tight = 9 + 2 + 6 * n.saturating_sub(2);
         let feed_all = 13 + 2 + 6 * n;
-        let small = r.random_range(0..5) == 0;
-        cfg.maxpkt = if small { pick(&mut r, &[24usize, 30, 36]) } else { pick(&mut r, &[feed_all, feed_all + 7, 200, 1400]) };
-        let nodisc = small && cfg.maxpkt < feed_all;
+        let small = !feed_regime && r.random_range(0..5) == 0;
+        cfg.maxpkt = if feed_regime { feed_tight } else if small { pick(&mut r, &[24usize, 30, 36]) }
+                     else { pick(&mut r, &[feed_tight, feed_tight + 1, feed_all, feed_all + 7, 200, 1400]) };
+        let nodisc = cfg.maxpkt < feed_tight;
         let lat_hi = cfg.rtt / 4 - 1;
         let scfg = SimCfg { n, cfg: cfg.clone(), codec: CodecKind::Hand(Mode::Fixed), handler: HandlerCfg::default(), pol: Policy::None,
                             seed: r.random(), lat: (0, lat_hi), late: 0 };
         let mut sim = Sim::new(scfg, run as u64, "c02", json!({"nodisc": nodisc}), tw);
-        let spread = pick(&mut r, &[0u64, p / 8, p / 2, 2 * p]);
-        form(&mut sim, &mut r, spread);
+        if feed_regime {
+            sim.spawn(0, 0);
+            let mut t = 0;
+            for i in 1..n {
+                t += (n as u64 + 2) * p;
+                sim.run_until(t);
+                sim.spawn(i, 0);
+                let via = if i % 2 == 0 { 0 } else { i - 1 };
+                sim.join(i, via);
+            }
+        } else {
+            let spread = pick(&mut r, &[0u64, p / 8, p / 2, 2 * p]);
+            form(&mut sim, &mut r, spread);
+        }
         let last_join = sim.now;
         let horizon = last_join + (4 * n as u64 + 10) * p + p;
         sim.run_until(horizon);
